@@ -93,13 +93,39 @@ func (x *exactness) paramConstSet(prm *ssa.Parameter) []int64 {
 		if idx >= len(args) {
 			return nil
 		}
-		c, ok := constInt(args[idx])
-		if !ok {
+		cs := x.intConstSet(args[idx], 0)
+		if cs == nil {
 			return nil
 		}
-		out = append(out, c)
+		out = append(out, cs...)
 	}
 	return out
+}
+
+// intConstSet: the finite set of constants v can be (constant, phi of such, constant-only parameter).
+func (x *exactness) intConstSet(v ssa.Value, depth int) []int64 {
+	if depth > 4 {
+		return nil
+	}
+	v = stripConv(v)
+	if c, ok := constInt(v); ok {
+		return []int64{c}
+	}
+	switch t := v.(type) {
+	case *ssa.Phi:
+		var out []int64
+		for _, e := range t.Edges {
+			cs := x.intConstSet(e, depth+1)
+			if cs == nil {
+				return nil
+			}
+			out = append(out, cs...)
+		}
+		return out
+	case *ssa.Parameter:
+		return x.paramConstSet(t)
+	}
+	return nil
 }
 
 // floatSet: the finite set of values a float expression built from constants and constant-only
